@@ -1,8 +1,8 @@
 # C10 — $merge and $replace behave as if the referenced subtree were written inline.
-from .. import core, evalgen, gen, hist, histprop
+from .. import filepass, core, evalgen, gen, hist, histprop
 from ..core import F, veq
 
-CLI = ()
+CLI = ("bkl",)
 HARNESS = True
 ASSUMPTIONS = [
     "theorems are about Model.Eval.p1/get (live-document semantics, DESIGN.md 4.5); tie to process1.go/get.go is this run's comparison",
@@ -219,7 +219,15 @@ def dist_fn(dist, c, a, b):
 
 def run(ctx):
     n = 1500 if ctx.tier == "quick" else 30000
-    return histprop.run_history_property(ctx, "C10", gen_case, n, RULE, nontrivial, extra_batch=extra_batch, dist_fn=dist_fn)
+    stats = histprop.run_history_property(ctx, "C10", gen_case, n, RULE, nontrivial, extra_batch=extra_batch, dist_fn=dist_fn)
+    rng = core.Rng(ctx.seed + 1)
+    nf = 200 if ctx.tier == "quick" else 4000
+    cases = [gen_case(rng.fork("fc%d" % i)) for i in range(nf)]
+    done = filepass.run_layers_through_files(ctx, [filepass.layers_of_history(c) for c in cases], rng, "C10", "c10-disagreement")
+    stats["distribution"]["through_layer_files"] = done
+    stats["evaluations"] += done
+    stats["disagreements_checked"] = len(ctx.violations)
+    return stats
 
 
 def replay(ctx, payload):
